@@ -284,10 +284,18 @@ func setupMain() int {
 		for _, p := range runExtract() {
 			fmt.Println("extract problem:", p)
 		}
-		out, err := runCmd(leanDir(), "lake", "build")
+		// the model executables must build; a theorem module that does not build is reported by the
+		// check of the property it belongs to (broken obligation), it does not fail the setup
+		out, err := runCmd(leanDir(), "lake", "build", "jsight-model", "jsight-scan", "jsight-ctx")
 		if err != nil {
 			fmt.Println(lastLines(out, 30))
 			code = 1
+			return
+		}
+		out, err = runCmd(leanDir(), "lake", "build", "JSight")
+		if err != nil {
+			fmt.Println("warning: some theorem modules do not build (their checks will report it):")
+			fmt.Println(lastLines(out, 12))
 			return
 		}
 		fmt.Println(lastLines(out, 2))
